@@ -15,7 +15,10 @@ struct Engine {
     Result& res;
     std::unordered_set<u64> digests;
 
-    Engine(Result& r, bool thorough) : res(r) {
+    // level 0: replay (states supplied by the caller); 1: bases + every 1-field deviation of every base over the wide
+    // domains; 2: additionally every 2-field deviation of base 0 over the boundary domains
+    Engine(Result& r, int level) : res(r) {
+        bool thorough = level >= 1;
         impl = LoadLib("libimpl.so");
         fields = AllFields();
         bases = BaseStates(impl, fields);
@@ -52,6 +55,28 @@ struct Engine {
                     state_names.push_back(f.name + Fmt("=%llX", (unsigned long long)v));
                 }
             }
+        if (level >= 2) {
+            std::vector<std::pair<size_t, u64>> dev;
+            for (size_t fi = 0; fi < fields.size(); ++fi) {
+                const Field& f = fields[fi];
+                if (f.kind == K_PC || f.name == "sp")
+                    continue;
+                for (u64 v : Domain(f.kind, false))
+                    if (GetField(bases[0].second, f) != v)
+                        dev.push_back({fi, v});
+            }
+            for (size_t i = 0; i < dev.size(); ++i)
+                for (size_t j = i + 1; j < dev.size(); ++j) {
+                    if (dev[i].first == dev[j].first)
+                        continue;
+                    VState s = bases[0].second;
+                    SetField(s, fields[dev[i].first], dev[i].second);
+                    SetField(s, fields[dev[j].first], dev[j].second);
+                    states.push_back(constrain(s));
+                    state_names.push_back(fields[dev[i].first].name + Fmt("=%llX,", (unsigned long long)dev[i].second) +
+                                          fields[dev[j].first].name + Fmt("=%llX", (unsigned long long)dev[j].second));
+                }
+        }
     }
 
     bool Exec(const VState& s, const std::vector<u16>& words, int cycles, VState& out, RunResult& rr) {
@@ -366,7 +391,7 @@ inline int RunReplay(const std::string& r, Result& res) {
     if (!ParseState(rest.substr(0, bar), st))
         return 2;
     std::string key = rest.substr(bar + 3);
-    Engine e(res, false);
+    Engine e(res, 0);
     e.states = {st};
     e.state_names = {"replayed"};
     if (key.rfind("pair:", 0) == 0) {
@@ -389,7 +414,7 @@ inline int RunReplay(const std::string& r, Result& res) {
 
 inline void Run(const Args& args, Result& res) {
     res.property = "C08";
-    bool th = args.thorough();
+    int th = args.thorough() ? 2 : 1;
     size_t nstates = 0, npairs = 0;
     {
         Result tmp;
@@ -416,14 +441,14 @@ inline void Run(const Args& args, Result& res) {
                 blk.distinct = e.digests.size();
             },
             res);
-    res.rule = Fmt("for every state of the alphabet (%zu states: bases + every 1-field deviation, constrained to the statement's preconditions "
+    res.rule = Fmt("for every state of the alphabet (%zu states: 8 bases + every 1-field deviation of every base%s, constrained to the statement's preconditions "
                    "sat=1, no loop active, product shift 0) and every program pair (%zu round-trip programs: push/pop of all 31 Register operands, "
                    "12 status/config words, 4 accumulator extensions, 4 whole-accumulator composites, p0/p1, r6, repc, x0, x1, y1, prpage; "
                    "cntx s;cntx r; banke f;banke f for all 64 flag sets; every bankr form twice) the real interpreter runs the program and the "
                    "round-trip identity is checked (sp, pc, 16-bit view of the operand, every other field unchanged); call forms x 16 conditions x "
                    "2 word orders x 3 stack positions with ret/rets, call-vs-inline for 12 bodies; interrupt entry on each line followed by "
                    "reti/retic compared with the uninterrupted run",
-                   nstates, npairs);
+                   nstates, th == 2 ? " + every 2-field deviation of the reset base over the boundary domains" : "", npairs);
     res.bound = Fmt("%zu states x (%zu round-trip pairs + 6x(16+1+2+4+12) call programs + 12 interrupt programs)", nstates, npairs);
     res.assumptions = {"a 33rd product bit that differs from bit 31, or a non-zero product shift, cannot survive two 16-bit words (stated precondition)",
                        "popping into an accumulator part legitimately rewrites the rest of that accumulator and the z/m/e/n/lm flags",
